@@ -10,6 +10,11 @@ from framelint.cfg import ENTRY, EXIT
 from .common import FORCE, call_name, norm_stmt, stmt_calls, facts_text
 
 PARTIAL = {"acos": (-1, 1), "asin": (-1, 1)}
+from framelint.canon import canon_function as _canon_function_expanded
+
+def canon_function(fi, model=None, opts=None):   # rules of this file match shapes: look through every local
+    return _canon_function_expanded(fi, model, opts, expand=True)
+
 
 
 def _is_clamped(arg: ast.expr, lo: float, hi: float) -> bool:
